@@ -163,6 +163,18 @@ impl Runner {
         let idx = self.trace.len();
         self.trace.push(ev.clone());
         self.kinds_seq.push(ev.kind());
+        // debugging aid (never set by the checks): wall time of slow events on stderr
+        let t_dbg = if std::env::var_os("CCSIM_TIMING").is_some() { Some(std::time::Instant::now()) } else { None };
+        self.apply_inner(ev, idx);
+        if let Some(t) = t_dbg {
+            let ms = t.elapsed().as_millis();
+            if ms >= 300 {
+                eprintln!("TIMING event {idx} {} {ms} ms", ev.kind());
+            }
+        }
+    }
+
+    fn apply_inner(&mut self, ev: &Ev, idx: usize) {
         let w = &mut self.world;
         w.now += 1;
         w.stats.events += 1;
@@ -224,6 +236,7 @@ impl Runner {
             }
             Ev::PqBinding { user, slot } => w.ev_pq_binding(*user, *slot),
             Ev::RaiseTracing => w.ev_raise_tracing(),
+            Ev::IdCounterJump { to, back } => w.ev_id_counter_jump(*to, *back),
             Ev::EncryptOtherThread { enc, pol, n } => w.ev_encrypt_other_thread(*enc, pol, *n),
         }
         if w.outcomes.len() == n_out {
